@@ -393,16 +393,52 @@ func EmbTerm(f *Field, t *Term) *Poly {
 	return out.Add(EmbPred(f, pure))
 }
 
-// ExpandEmb expands every FE(L) variable with a multi-atom L into the linear
-// combination of its atoms (used as a fallback when comparing).
+// expandAtom embeds an integer atom at byte granularity: a 256-bit whole
+// value or a 64-bit limb is written as the sum of its bytes, so that values
+// assembled limb-wise and values assembled whole compare equal.
+func expandAtom(f *Field, a *IAtom) *Poly {
+	byteSum := func(base *Term, lo, n int) *Poly {
+		out := newPoly(f)
+		for j := 0; j < n; j++ {
+			b := ByteOf(base, lo+j)
+			out = out.Add(EmbPred(f, b).ScaleC(pow2(8 * j)))
+		}
+		return out
+	}
+	switch {
+	case a.Kind == ISym && a.Hi.Cmp(max256) == 0:
+		return byteSum(TAtom(a), 0, 32)
+	case a.Kind == ILimb:
+		return byteSum(a.T, 8*a.Idx, 8)
+	}
+	return embAtom(f, a)
+}
+
+func expandTerm(f *Field, t *Term) *Poly {
+	out := newPoly(f)
+	for _, m := range t.mons {
+		q := PolyConst(f, m.c)
+		for _, a := range m.preds {
+			q = q.Mul(PolyVar(predVar(f, a)))
+		}
+		if m.atom != nil {
+			q = q.Mul(expandAtom(f, m.atom))
+		}
+		out = out.Add(q)
+	}
+	return out
+}
+
+// ExpandEmb expands every embedded integer FE(T) into the linear combination
+// of its atoms at byte granularity (used as a fallback when comparing).
 func (p *Poly) ExpandEmb() *Poly {
 	out := newPoly(p.F)
 	for _, m := range p.mons {
 		q := PolyConst(p.F, m.c)
 		for _, x := range m.vars {
 			var base *Poly
-			if x.v.Kind == FEmb && x.v.T.SingleAtom() == nil {
-				base = EmbPred(p.F, x.v.T)
+			if x.v.Kind == FEmb {
+				base = expandTerm(p.F, x.v.T)
 			} else {
 				base = PolyVar(x.v)
 			}
